@@ -46,8 +46,12 @@ func VerifC20Backup(h *verifh.H) {
 	ids := []string{"ns0:e1", "ns0:e2"}
 	targets := []string{"ns0:e2", "ns0:e3"}
 	runs := 0
+	wiped := false
 	for k := 0; k < nops; k++ {
 		op := h.Choice("op", h.Param("opKinds", 3))
+		if h.Param("wipeJob", 0) == 1 {
+			h.Assume(op == 0 || op == 1 || op == 5) // write, backup run, wipe
+		}
 		if k == nops-1 {
 			op = 1 // histories end with a backup run (the interesting observation point)
 		}
@@ -56,7 +60,28 @@ func VerifC20Backup(h *verifh.H) {
 			v := drawVersion(h, ids, targets, vFamily{P1: 2, P2: false, Vals: 2, Del: false})
 			v.Props["ns0:k"] = "k" + itoa(k)
 			h.Assert(ds.StoreEntities([]*Entity{mkEntity(v)}) == nil, "write")
+		case 5: // the store is wiped (DELETE /datasets): an empty store with a new identity
+			h.Assert(hub.Store.Delete() == nil, "wipe accepted")
+			// (core.Dataset only comes back when a new dataset manager is built, i.e. with the
+			// restart that follows a wipe in practice)
+			hub = hub.Restart()
+			bm = vNewBackupManager(h, hub, location)
+			ds, err = hub.Dsm.CreateDataset("d", nil)
+			h.Assert(err == nil, "create after wipe")
+			// only a location that already holds a backup of the old store belongs to it
+			wiped = runs > 0
 		case 1: // backup run, then restore and compare
+			if wiped {
+				// the backup location belongs to the store as it was before the wipe: a run must
+				// refuse it and leave the backup file as it is
+				before, _ := os.ReadFile(location + "/datahub-backup.kv")
+				refused := vRun(bm)
+				after, _ := os.ReadFile(location + "/datahub-backup.kv")
+				h.Assert(refused, "after a wipe a backup run against the old store's backup location is refused")
+				h.Assert(len(before) == len(after), "after a wipe the old store's backup is not written to :: before="+itoa(len(before))+" after="+itoa(len(after)))
+				runs++
+				break
+			}
 			atStart := vObsBackup(h, hub)
 			h.Assert(!vRun(bm), "backup run completes")
 			runs++
